@@ -245,6 +245,9 @@ func ruleR3(p *Prog, r *Report) {
 			if idArg == nil {
 				return
 			}
+			if _, _, _, isCtor := constructorLiteral(call); isCtor {
+				return // a private constructor that is given the id of the slab it builds: nothing was retrieved
+			}
 			for idx := 0; idx < 2; idx++ {
 				for _, o := range t.callResultObj(call, idx, call.Type()) {
 					if strings.HasPrefix(o, "C:") {
